@@ -524,7 +524,10 @@ double Dawson_Integral(double x)
 
 double Erfi(double x)
 {
-	return 2.0 / std::sqrt(M_PI) * std::exp(x * x) * Dawson_Integral(x);
+	// exp(x^2) (and 2/sqrt(pi)*exp(x^2)) overflows for |x| > 26.64, although Erfi(x) ~ exp(x^2)/(sqrt(pi) x) is a double up to
+	// |x| = 26.71: split the exponential and multiply by the small factor Dawson(x) first.
+	double e = std::exp(0.5 * x * x);
+	return 2.0 / std::sqrt(M_PI) * Dawson_Integral(x) * e * e;
 }
 
 double Inv_Erf(double p)
